@@ -296,6 +296,19 @@ func (pe *pathEnum) instrs(c *seeCtx, b *ssa.BasicBlock, i int, st *pstate, emit
 		in := b.Instrs[i]
 		if call, ok := in.(*ssa.Call); ok {
 			callee := StaticCallee(&call.Call)
+			if pn := neverReturns(callee); pn != nil {
+				// a helper that always panics (panicf): the path ends here
+				pe.count++
+				if pe.count > pe.opts.MaxPaths {
+					pe.over = true
+					return
+				}
+				if k := len(st.segs) - 1; k >= 0 {
+					st.segs[k].to = i + 1
+				}
+				emit(&Path{Atoms: st.atoms, Panic: pn, Blocks: st.blocks, env: c, segs: st.segs})
+				return
+			}
 			if callee != nil && callee.Blocks != nil && pe.opts.InlinePaths != nil && pe.opts.InlinePaths(callee) &&
 				!c.stack[callee] && c.depth < 6 {
 				// Enumerate callee paths.
@@ -523,6 +536,46 @@ func pure(e *Expr) bool {
 }
 
 // isLoopHeader reports whether b has an incoming back edge.
+var noRet = map[*ssa.Function]*ssa.Panic{}
+
+// neverReturns returns the panic instruction of a function with a body none of
+// whose reachable blocks returns (every call ends in panic), or nil.
+func neverReturns(fn *ssa.Function) *ssa.Panic {
+	if fn == nil || fn.Blocks == nil {
+		return nil
+	}
+	if p, ok := noRet[fn]; ok {
+		return p
+	}
+	var pn *ssa.Panic
+	returns := false
+	seen := map[*ssa.BasicBlock]bool{}
+	var walk func(b *ssa.BasicBlock)
+	walk = func(b *ssa.BasicBlock) {
+		if seen[b] {
+			return
+		}
+		seen[b] = true
+		switch t := b.Instrs[len(b.Instrs)-1].(type) {
+		case *ssa.Return:
+			returns = true
+		case *ssa.Panic:
+			if pn == nil {
+				pn = t
+			}
+		}
+		for _, s := range b.Succs {
+			walk(s)
+		}
+	}
+	walk(fn.Blocks[0])
+	if returns || fn.Recover != nil {
+		pn = nil
+	}
+	noRet[fn] = pn
+	return pn
+}
+
 func isLoopHeader(b *ssa.BasicBlock) bool {
 	for _, p := range b.Preds {
 		if b.Dominates(p) {
